@@ -114,6 +114,37 @@ def _monitor(spec, out0):
                                                 {"base": out0.get("objective"), "with_extra": out2.get("objective"), "cross_check": best}))
                 except Exception:
                     pass
+    if cname in ("kMinPathError", "kLeastAbsErrors", "kMinPathErrorCycles", "kLeastAbsErrorsCycles"):
+        # "giving an element error scale 0" and "ignoring it" are the same request: same solvability, same optimum
+        node_mode = mr._node_mode(world)
+        if node_mode:
+            elems = [x for x, f in g.get("node_weights", []) if f is not None]
+        else:
+            elems = [[u, v] for u, v, f in g["edges"] if f is not None]
+        already = [e for e in (args.get("elements_to_ignore") or [])]
+        elems = [e for e in elems if e not in already]
+        if len(elems) >= 2:
+            e = elems[H(spec["sim"].get("reply_seed", 0), "scale0") % len(elems)]
+            wa, wb = copy.deepcopy(world), copy.deepcopy(world)
+            wa["args"]["elements_to_ignore"] = already + [e]
+            wa["args"]["error_scaling"] = [p_ for p_ in (args.get("error_scaling") or []) if p_[0] != e]
+            wb["args"]["error_scaling"] = [p_ for p_ in (args.get("error_scaling") or []) if p_[0] != e] + [[e, 0]]
+            if not wa["args"]["error_scaling"]:
+                wa["args"].pop("error_scaling")
+            oa, _, _ = mr.run(wa, spec["sim"], seed=1)
+            ob, _, _ = mr.run(wb, spec["sim"], seed=1)
+            counters["monitor:scale0_vs_ignored"] = 1
+            if not any(o.get("construct_exc") or o.get("solve_exc") for o in (oa, ob)):
+                if oa["solved"] != ob["solved"] or (oa["solved"] and not _close(oa.get("objective"), ob.get("objective"))):
+                    bad, best = _confirmed(wa, wb, lambda sa, ba, sb, bb: sa != sb or (sa and not _close(ba, bb)))
+                    if bad:
+                        vs.append(Violation(ID, "C10.scale0_differs_from_ignored", cname + ("/node" if node_mode else ""),
+                                            {"element": e, "ignored": [oa["solved"], oa.get("objective")], "scale0": [ob["solved"], ob.get("objective")], "cross_check": best}))
+                    else:
+                        counters["solver_not_truthful_discrepancy_dismissed"] = 1
+            elif bool(oa.get("construct_exc") or oa.get("solve_exc")) != bool(ob.get("construct_exc") or ob.get("solve_exc")):
+                vs.append(Violation(ID, "C10.scale0_differs_from_ignored", cname + ("/node" if node_mode else ""),
+                                    {"element": e, "ignored_exc": oa.get("construct_exc") or oa.get("solve_exc"), "scale0_exc": ob.get("construct_exc") or ob.get("solve_exc")}))
     cons_key = "subpath_constraints" if cname in models.DAG_CLASSES else "subset_constraints"
     if args.get(cons_key):
         # constraints only restrict: whatever is solved with them is solved without them, and a
